@@ -1,6 +1,14 @@
 package props
 
 import (
+	"fmt"
+	"io"
+	"os"
+
+	"github.com/anz-bank/sysl/pkg/parse"
+	"github.com/sirupsen/logrus"
+	"verif/engine/core"
+
 	"google.golang.org/protobuf/encoding/prototext"
 	"google.golang.org/protobuf/proto"
 )
@@ -9,4 +17,17 @@ import (
 func prototextString(m proto.Message) string {
 	b, _ := prototext.MarshalOptions{Multiline: true, Indent: " "}.Marshal(m)
 	return string(b)
+}
+
+func init() {
+	core.Subcommands["dumpmod"] = func(args []string) {
+		logrus.SetOutput(io.Discard)
+		b, _ := os.ReadFile(args[0])
+		m, err, crash := compileFiles(filesCase{Root: "t.sysl", Files: map[string]string{"t.sysl": string(b)}}, parse.Settings{})
+		if err != nil || crash != "" {
+			fmt.Println("ERR", err, crash)
+			return
+		}
+		fmt.Println(prototextString(stripped(m)))
+	}
 }
